@@ -41,6 +41,7 @@ template <size_t SW, size_t DW, Variant V> static inline int prop(const unsigned
 	std::basic_string<SC> back; back.reserve(16);
 	const DU pre = (DU)v.prefix;
 	o.push_back((DC)pre);
+	verif_nogrow(&o); verif_nogrow(&back);
 	verif_symbolic_phase();
 	const SC* b = reinterpret_cast<const SC*>(src);
 	UtfEncodingErrorCode ec = UtfEncodingErrorCode::Success; size_t it = 0, cnt = 0; int rc = 0;
